@@ -84,6 +84,9 @@ type Explorer struct {
 	FuncsSeen   map[string]bool
 	ModelsHit   map[string]bool
 	MaxVectors  int
+	pathSeen    int64
+	pathIdx     []int
+	vrng        *rand.Rand
 	queryNo     int64
 	Repaired    int64
 	SkippedQ    int64
@@ -686,8 +689,23 @@ func (p *Path) emitVector(m sym.Model, purpose, id string, prefix bool) {
 		}
 	}
 	ex.resMu.Lock()
-	if purpose != "path" || len(ex.Vectors) < ex.MaxVectors {
+	if purpose != "path" {
 		ex.Vectors = append(ex.Vectors, v)
+	} else {
+		// the path vectors replayed natively are a uniform sample of all paths (reservoir),
+		// not the first MaxVectors in exploration order
+		ex.pathSeen++
+		if len(ex.pathIdx) < ex.MaxVectors {
+			ex.pathIdx = append(ex.pathIdx, len(ex.Vectors))
+			ex.Vectors = append(ex.Vectors, v)
+		} else {
+			if ex.vrng == nil {
+				ex.vrng = rand.New(rand.NewSource(ex.Seed + 7))
+			}
+			if j := ex.vrng.Int63n(ex.pathSeen); j < int64(ex.MaxVectors) {
+				ex.Vectors[ex.pathIdx[j]] = v
+			}
+		}
 	}
 	ex.resMu.Unlock()
 }
